@@ -336,6 +336,26 @@ pub fn deep_program(kind: u8, n: u16) -> Program {
             code.push(i0("add", vec![r(R16::BX), imm(1)]));
             code.push(i0("loop", vec![name("again")]));
         }
+        4 => {
+            // a label / a procedure behind n instructions (instruction indices beyond 16 bits when n > 65535):
+            // jump over the block, call the procedure defined behind it... procedures must precede their calls, so the
+            // procedure comes first and the long block lies between its definition and the call site
+            code.push(Item::Proc { name: "early".into(), body: vec![i0("add", vec![r(R16::BX), imm(7)])] });
+            code.push(Item::Label("start".into()));
+            code.push(i0("mov", vec![r(R16::AX), imm(0)]));
+            code.push(i0("mov", vec![r(R16::DX), imm(0)]));
+            code.push(i0("jmp", vec![name("far_label")]));
+            for _ in 0..n {
+                code.push(i0("mov", vec![r(R16::DX), imm(1)]));
+            }
+            code.push(Item::Label("far_label".into()));
+            code.push(i0("add", vec![r(R16::AX), imm(5)]));
+            code.push(i0("call", vec![name("early")]));
+            code.push(i0("cmp", vec![r(R16::AX), imm(5)]));
+            code.push(i0("je", vec![name("far_end")]));
+            code.push(i0("mov", vec![r(R16::DX), imm(2)]));
+            code.push(Item::Label("far_end".into()));
+        }
         _ => {
             code.push(Item::Proc { name: "probe".into(), body: vec![i0("add", vec![r(R16::AX), imm(1)]), i0("jmp", vec![name("back")])] });
             code.push(Item::Label("start".into()));
@@ -357,13 +377,17 @@ fn deep_family(ctx: &Ctx) {
         ns.extend([20_000u16, 65_535]);
     }
     let mut jobs: Vec<(u8, u16)> = Vec::new();
-    for kind in 0..4u8 {
+    for kind in [0u8, 1, 2, 5] {
         for n in &ns {
             if kind == 1 && *n > 1000 {
                 continue;
             }
             jobs.push((kind, *n));
         }
+    }
+    // long programs: a label behind n instructions
+    for n in [100u16, 40_000, 65_534, 65_535] {
+        jobs.push((4, n));
     }
     let outcomes: Vec<((u8, u16), CaseOutcome)> = jobs
         .par_iter()
@@ -377,7 +401,7 @@ fn deep_family(ctx: &Ctx) {
             let rr = ref_run(&flat, &image, &cfg, &Quirks::none());
             let exp = crate::c17::blank_lines(&normalise(&rr.events));
             let out = run_cli(rendered.text.as_bytes(), Stdin::Closed, false, 1 << 20, 120_000);
-            let name = ["recursion", "procedure-chain", "sequential-calls", "calls-left-by-jump"][*kind as usize];
+            let name = ["recursion", "procedure-chain", "sequential-calls", "calls-left-by-jump", "label-behind-n-instructions", "calls-left-by-jump"][*kind as usize];
             let replay = json!({"kind":"cli","source":rendered.text,"stdin":"","interpreted":false,"blank_line_numbers":true,
                 "expected_events": exp.iter().map(|e| format!("{:?}", e)).collect::<Vec<_>>()});
             let o = if matches!(out.status, Status::Timeout | Status::SpawnError(_)) {
